@@ -319,6 +319,10 @@ theorem relStep_map (vr : Variant) (mode : Mode) (asm : Asm) (st : List Nat) (a 
       | exact processProcess_map E hrec asm st _ _ _ _
       | exact callableCallable_map E hrec asm st b _ _ _ _ _ _
       | (split
+         · exact callableCallable_map E hrec asm st b _ _ _ _ _ _
+         · rw [← restoreOnFail_map]
+           exact congrArg _ (callableCallable_map E hrec ((a, b) :: asm) st b _ _ _ _ _ _))
+      | (split
          · rfl
          · exact cycleLeft_map E hrec asm st _ b)
       | (simp only [mapRes, Option.map_some])
